@@ -1419,6 +1419,23 @@ def main(run):
                "parent_mode": mode, "rounds": rounds, "seed": rng.randrange(2 ** 31)}
         cfg["send"] = (set(range(6)) | pick_send(rng, rounds, run.scale(8, 14))) if dim <= 6 else set()
         run_active(ctx, cfg)
+    # fitness-less parent (bare numpy array) with a tight parent-relative constraint: the first generation mixes
+    # feasible and infeasible offspring while `hasattr(self.parent, "fitness")` is still false -- the branch
+    # `lambda_succ = len(valid_population)` of update (gap exposed by the regenerated tie: a count over the whole
+    # population there passed every generator)
+    import random
+    rb = random.Random("C14-bare-%d" % run.seed)      # own stream: the histories of the other families stay as they were
+    for h in range(run.scale(8, 24)):
+        lam = [2, 5, 10, 20][h % 4]
+        dim = rb.randint(2, 5)
+        sigma = rb.choice([0.3, 0.5, 1.0])
+        parent = [round(rb.uniform(-1.0, 2.0), 3) for _ in range(dim)]
+        e0 = [1.0] + [0.0] * (dim - 1)
+        specs = [{"coef": e0, "op": "lt", "b": parent[0] - [0.3, 0.0, -0.3][h % 3] * sigma}]
+        cfg = {"dim": dim, "lambda": lam, "sigma": sigma, "parent": parent, "objective": ["sphere", "step"][h % 2],
+               "constraints": specs, "steps": [0.0] * dim, "parent_mode": "bare", "rounds": 4,
+               "seed": rb.randrange(2 ** 31), "send": set(range(2))}
+        run_active(ctx, cfg)
     # ---------------- hardening round: sequences, aliasing, value domains, rare routes, boundaries ----------------
     def short_send(r):
         return set(range(min(r, 4))) | pick_send(rng, r, run.scale(7, 12))
